@@ -34,10 +34,42 @@ def all_styles():
     return out
 
 
+# which pygments token each syntax token is shown as: the harness's own copy (the specification of the colour table; the key set is
+# also pinned by the regenerated tables of C16.table_total / tokens_exist)
+from pygments import token as _pt
+PYGMENTS_TOKEN_OF = {
+    'KEYWORD_CONSTANT': _pt.Keyword.Constant, 'NAME_BUILTIN': _pt.Name.Builtin, 'NAME_ENTITY': _pt.Name.Entity, 'NAME_FUNCTION': _pt.Name.Function,
+    'NAME_VARIABLE': _pt.Name.Variable, 'LITERAL_STRING': _pt.String, 'STRING_AFFIX': _pt.String.Affix, 'STRING_ESCAPE': _pt.String.Escape,
+    'NUMBER_BINARY': _pt.Number.Bin, 'NUMBER_INT': _pt.Number.Integer, 'NUMBER_FLOAT': _pt.Number.Float, 'OPERATOR': _pt.Operator,
+    'PUNCTUATION': _pt.Punctuation, 'COMMENT_SINGLE': _pt.Comment.Single,
+}
+
+
+def sgr_of_attrs(attrs):
+    """the escape sequences a style's attributes stand for (true colour): reset, foreground, background, bold, italic, underline -
+    written here from the attributes, not taken from the implementation"""
+    def rgb(h):
+        h = h.lstrip('#')
+        if len(h) == 3:
+            h = ''.join(ch * 2 for ch in h)
+        return '%d;%d;%d' % (int(h[0:2], 16), int(h[2:4], 16), int(h[4:6], 16))
+    out = '\x1b[0m'
+    if attrs.get('color'):
+        out += '\x1b[38;2;%sm' % rgb(attrs['color'])
+    if attrs.get('bgcolor'):
+        out += '\x1b[48;2;%sm' % rgb(attrs['bgcolor'])
+    if attrs.get('bold'):
+        out += '\x1b[1m'
+    if attrs.get('italic'):
+        out += '\x1b[3m'
+    if attrs.get('underline'):
+        out += '\x1b[4m'
+    return out
+
+
 def style_string(style, tok_id):
-    tok = getattr(Token, TOKEN_NAMES[tok_id])
-    attrs = style.style_for_token(C._SYNTAX_TOKEN_TO_PYGMENTS_TOKEN[tok])
-    return str(C.styleattrs_to_colorful(attrs))
+    attrs = style.style_for_token(PYGMENTS_TOKEN_OF[TOKEN_NAMES[tok_id]])
+    return sgr_of_attrs(attrs)
 
 
 _OUT = re.compile(r'\(t([ 0-9]*)\)|\(sgr (\d+)\)|reset')
@@ -171,6 +203,36 @@ def ann_docs(rng, n):
     return out
 
 
+def cpprint_entry_check():
+    """the entry point itself: cpprint(value, stream, **settings) with the styling stripped is pformat(value, **settings) - for every way
+    of giving the settings, an explicit max_seq_len=None on a container longer than the default limit among them - and ends in reset"""
+    bad = []
+    long_list = list(range(1003))
+    cases = [([1, 'two', None, 2.5], {}), (long_list, {'max_seq_len': None}), ({'k': long_list}, {'max_seq_len': None, 'width': 40}),
+             (list(range(30)), {'max_seq_len': 3}), ([[1, [2, [3]]]], {'depth': 2}), ({'b': 1, 'a': 2}, {'sort_dict_keys': True}),
+             (['word ' * 10, 'x'], {'width': 30, 'ribbon_width': 20}), ([1, 2, 3], {'indent': 2, 'width': 4})]
+    # (style classes only: the documented aliases style='light' / 'dark' raise AttributeError in cpprint on the unchanged tree - only
+    # set_default_style translates them; an API defect outside what C16 quantifies over, noted in DESIGN section 7)
+    for style in (None, C.GitHubLightStyle, C.default_dark_style):
+        for value, st in cases:
+            out = io.StringIO()
+            try:
+                with warnings.catch_warnings():
+                    warnings.simplefilter('ignore')
+                    pp.cpprint(value, stream=out, end='', style=style, **st)
+                    plain = pp.pformat(value, **st)
+            except Exception as e:
+                bad.append({'kind': 'colour-render-raises', 'style': str(style), 'exc': '%s: %s' % (type(e).__name__, e), 'case': 'cpprint(%s, %r)' % (repr(value)[:60], st)})
+                continue
+            text, states, final = decode(out.getvalue())
+            if text != plain or final != '':
+                bad.append({'kind': 'colour-output', 'why': 'cpprint(value, **settings) with the styling stripped is not pformat(value, **settings)' if text != plain else 'cpprint does not end in the reset state',
+                            'style': str(style), 'case': 'cpprint(%s, %r)' % (repr(value)[:60], st), 'bytes': repr(out.getvalue())[:300]})
+        if len(bad) >= 3:
+            break
+    return bad[:3]
+
+
 def color_section(tier, seed):
     rng = random.Random(seed * 43 + 10)
     styles = all_styles()
@@ -240,13 +302,17 @@ def color_section(tier, seed):
     shape_fail = None
     for fg, bg, bold, it, ul in itertools.product([None, 'ff0000'], [None, '00ff00'], [False, True], [False, True], [False, True]):
         try:
-            s = str(C.styleattrs_to_colorful({'color': fg, 'bgcolor': bg, 'bold': bold, 'italic': it, 'underline': ul}))
+            attrs = {'color': fg, 'bgcolor': bg, 'bold': bold, 'italic': it, 'underline': ul}
+            s = str(C.styleattrs_to_colorful(attrs))
             if not s.startswith('\x1b[0m'):
                 shape_fail = ('does not start from reset', fg, bg, bold, it, ul)
+            elif s != sgr_of_attrs(attrs):
+                shape_fail = ('escape sequences %r, the attributes stand for %r' % (s, sgr_of_attrs(attrs)), fg, bg, bold, it, ul)
         except Exception as e:
             shape_fail = (type(e).__name__, fg, bg, bold, it, ul)
     if shape_fail:
         fails.append({'kind': 'style-attributes-raise', 'shape': shape_fail})
+    fails.extend(cpprint_entry_check())
     stats = {'evaluations': tot, 'distinct_nontrivial': nt, 'styles': len(names), 'cases': len(cases), 'mismatches': len(mism),
              'attribute_shapes_checked': 32,
              'samples': [{'case': repr(cases[2])[:200], 'styles': names[:4]}],
